@@ -262,6 +262,7 @@ Proof.
       assert (Hprev : aq_prevIdx a < c).
       { destruct news as [|n0 nr]; [congruence|]. simpl in Hc0. subst c.
         apply (contig_idx _ _ Hc). apply in_app_iff. right. left. reflexivity. }
+      destruct (conflict_pred a news) as [pi pt].
       match goal with |- cont_log _ _ _ (store_new _ _ _ ?S3 _ _ _) =>
         assert (Hd3 : d_log S3 = log_delete (d_log s2) c (v_lastLogIdx s2)) by (destruct (c <=? v_latestIdx _); reflexivity)
       end.
@@ -321,7 +322,8 @@ Proof.
         - unfold store_new in Eae. destruct (do_stage _ _ _). destruct (do_store _ _ _ _) as [[? ok] ?].
           destruct ok; simpl in Eae; inversion Eae; reflexivity.
         - destruct (do_delete _ _ _ _) as [[? ok] ?]. destruct ok; simpl in Eae.
-          + unfold store_new in Eae. destruct (do_stage _ _ _). destruct (do_store _ _ _ _) as [[? ok] ?].
+          + destruct (conflict_pred _ _) as [pi pt].
+            unfold store_new in Eae. destruct (do_stage _ _ _). destruct (do_store _ _ _ _) as [[? ok] ?].
             destruct ok; simpl in Eae; inversion Eae; reflexivity.
           + inversion Eae; reflexivity.
         - inversion Eae; reflexivity. }
